@@ -293,7 +293,8 @@ func GenMut(r *kit.Rand, fields, span int) (mut string, at int, val uint64) {
 	switch r.Weighted([]int{4, 5, 4, 2, 3, 3, 2, 3}) {
 	case 7:
 		if r.Bool() {
-			return "setnum", r.Intn(fields), kit.Pick(r, []uint64{1<<63 - 1, 1 << 63, 1<<63 + 1, 1<<64 - 2, 1<<64 - 1, 1<<32 - 1, 1 << 32, 1<<31 - 1, 1 << 31})
+			// (... and large values that a plausibility check may still let through: counts of ten and a hundred million)
+			return "setnum", r.Intn(fields), kit.Pick(r, []uint64{1<<63 - 1, 1 << 63, 1<<63 + 1, 1<<64 - 2, 1<<64 - 1, 1<<32 - 1, 1 << 32, 1<<31 - 1, 1 << 31, 1 << 24, 99_999_998, 99_999_999})
 		}
 		return "setnum", r.Intn(fields), kit.Pick(r, MutVals)
 	case 0:
